@@ -7,14 +7,14 @@ use neurons::tensor::{Data, Shape, Tensor};
 
 pub fn meta(_ctx: &Ctx) -> Meta {
     Meta {
-        rule: "ops {add,sub,mul,hadamard*scalar,div-by-scalar,mean over k=1..4} x ranks 1-D..4-D (nested lists for add/div) x all shapes with extents in {1,2,3} x operand valuations covering ALL ordered pairs over V={0,-0,1,-1,0.1,3,-7.5,2^-149,1e-30,1e30,MAX} (cycled through the elements with every offset) x scalars {1,0.5,2,-4,3}; every ordered pair of different shapes of the lattice must be refused by add/sub/mul/hadamard/mean; product/dot/transpose on integer data; clamp over V x intervals incl. degenerate. Oracle: the single IEEE f32 operation per element, bit-exact. Non-trivial = case with >=2 elements or a shape-mismatch pair".into(),
+        rule: "ops {add,sub,mul,hadamard*scalar,div-by-scalar,mean over k=1..4} x ranks 1-D..4-D (nested lists for add/div) x all shapes with extents in {1,2,3} x operand valuations covering ALL 169 ordered pairs over V={0,-0,1,-1,0.1,3,-7.5,2^-149,1e-30,1e30,MAX,5,1e-5} (cycled through the elements with every offset) x scalars {1,0.5,2,-4,3,7,0.1,1e-39,3e38}; every ordered pair of different shapes of the lattice must be refused by add/sub/mul/hadamard/mean; product/dot/transpose on integer data; clamp over V x intervals incl. degenerate. Oracle: the single IEEE f32 operation per element, bit-exact. Non-trivial = case with >=2 elements or a shape-mismatch pair".into(),
         bound: "extents <= 3 per axis, k <= 4; complete within the bound".into(),
         exhaustive: true,
         assumptions: vec!["hadamard: any association of a*b*scalar is accepted".into(), "mean: bit-exact on integer operands (exact sum, one rounding of the quotient); on general operands within the any-order summation bound eps*(k+2)*sum|x|/(k+1) of the f64 value".into()],
     }
 }
 
-const V: [f32; 11] = [0.0, -0.0, 1.0, -1.0, 0.1, 3.0, -7.5, 1.0e-45, 1.0e-30, 1.0e30, f32::MAX];
+const V: [f32; 13] = [0.0, -0.0, 1.0, -1.0, 0.1, 3.0, -7.5, 1.0e-45, 1.0e-30, 1.0e30, f32::MAX, 5.0, 1.0e-5];
 
 fn shapes() -> Vec<Vec<usize>> {
     let mut v = Vec::new();
@@ -107,7 +107,7 @@ fn same(a: f32, b: f32) -> bool {
     a.to_bits() == b.to_bits() || (a.is_nan() && b.is_nan())
 }
 
-const SCALARS: [f32; 5] = [1.0, 0.5, 2.0, -4.0, 3.0];
+const SCALARS: [f32; 9] = [1.0, 0.5, 2.0, -4.0, 3.0, 7.0, 0.1, 1.0e-39, 3.0e38];
 
 pub fn check(case: &Kv, rep: &mut Report) {
     rep.states += 1;
@@ -119,8 +119,8 @@ pub fn check(case: &Kv, rep: &mut Report) {
             let n = count(&s);
             let off = case.usize("off");
             let scalar = case.opt("scalar").map(|x| x.parse::<f32>().unwrap()).unwrap_or(1.0);
-            let a: Vec<f32> = (0..n).map(|e| V[((off + e) % 121) / 11]).collect();
-            let b: Vec<f32> = (0..n).map(|e| V[((off + e) % 121) % 11]).collect();
+            let a: Vec<f32> = (0..n).map(|e| V[((off + e) % 169) / 13]).collect();
+            let b: Vec<f32> = (0..n).map(|e| V[((off + e) % 169) % 13]).collect();
             if n >= 2 {
                 rep.nontrivial += 1;
             }
@@ -283,6 +283,22 @@ pub fn check(case: &Kv, rep: &mut Report) {
                     rep.violate(format!("C15 {} accepts mismatched shapes", o), format!("{} with {} was not refused", sname(&sa), sname(&sb)), case);
                 }
             }
+            // the mean over k tensors must refuse a mismatch in ANY operand, not only the first
+            for bad_at in 1..3usize {
+                let mut t = mk(&sa, &a);
+                let ok = mk(&sa, &a);
+                let u = mk(&sb, &b);
+                rep.transitions += 1;
+                let r = guard(|| {
+                    let mut others: Vec<&Tensor> = vec![&ok; bad_at];
+                    others.push(&u);
+                    t.mean_inplace(&others);
+                    t
+                });
+                if r.is_ok() {
+                    rep.violate("C15 mean accepts mismatched shapes", format!("{} with a later operand {} (position {}) was not refused", sname(&sa), sname(&sb), bad_at + 1), case);
+                }
+            }
             // nested lists of different length
             if sa.len() == 1 && sb.len() == 1 {
                 let mut n1 = Tensor::nested(vec![mk(&sa, &a); 2]);
@@ -367,7 +383,7 @@ pub fn check(case: &Kv, rep: &mut Report) {
             if n >= 2 {
                 rep.nontrivial += 1;
             }
-            let a: Vec<f32> = (0..n).map(|e| V[(off + e) % 11]).collect();
+            let a: Vec<f32> = (0..n).map(|e| V[(off + e) % 13]).collect();
             rep.transitions += 1;
             match guard(|| mk(&s, &a).clamp(lo, hi)) {
                 Err(e) => rep.violate(format!("C15 clamp rank{} panics", s.len()), e, case),
@@ -408,7 +424,7 @@ pub fn cases() -> Vec<Kv> {
     let mut out = Vec::new();
     for s in &sh {
         let n = count(s);
-        let offsets: Vec<usize> = (0..121).step_by(n.min(121)).collect();
+        let offsets: Vec<usize> = (0..169).step_by(n.min(169)).collect();
         for op in ["add", "sub", "mul"] {
             for off in &offsets {
                 out.push(Kv::new().put("op", op).put("shape", sname(s)).put("off", off));
@@ -416,9 +432,12 @@ pub fn cases() -> Vec<Kv> {
         }
         for sc in SCALARS {
             for off in &offsets {
+                if sc == 1.0e-39 || sc == 3.0e38 {
+                    continue; // the three associations of a*b*s differ by overflow/underflow there
+                }
                 out.push(Kv::new().put("op", "hadamard").put("shape", sname(s)).put("off", off).put("scalar", sc));
             }
-            for off in (0..121).step_by((11 * n).min(121)) {
+            for off in (0..169).step_by((13 * n).min(169)) {
                 out.push(Kv::new().put("op", "div").put("shape", sname(s)).put("off", off).put("scalar", sc));
                 out.push(Kv::new().put("op", "div").put("shape", sname(s)).put("off", off).put("scalar", sc).put("nested", 1));
             }
@@ -433,7 +452,7 @@ pub fn cases() -> Vec<Kv> {
             }
         }
         for (lo, hi) in [(-1.0f32, 1.0f32), (0.0, 0.5), (0.3, 0.3), (-1e30, 1e30), (-0.0, 0.0), (2.0, 1e38)] {
-            for off in (0..11).step_by(n.min(11)) {
+            for off in (0..13).step_by(n.min(13)) {
                 out.push(Kv::new().put("op", "clamp").put("shape", sname(s)).put("off", off).put("lo", lo).put("hi", hi));
             }
         }
